@@ -190,6 +190,9 @@ def replay(run, item, hist, rng, with_fresh=True, with_outputs=False):
     except Exception as e:  # the implementation raised
         import traceback
 
+        from .common import reraise_if_harness
+
+        reraise_if_harness(e)
         tb = traceback.extract_tb(e.__traceback__)
         rec.update(err=True, obs=[], sel=[], obs_inv=[], obs_fresh=[], obs_again=[])
         rec["exception"] = "%s: %s" % (type(e).__name__, str(e)[:200])
